@@ -153,8 +153,16 @@ def work_store(ctx, item):
 
 def work_generated(ctx, seed):
     rng = random.Random(seed)
-    b = gen.gen_basis(rng, ecp_prob=0.5)
+    b = gen.gen_basis(rng, ecp_prob=0.5) if seed % 4 else rng.choice(gen.PATHOLOGICAL)(rng)
     exercise(ctx, b, 'gen:%d' % seed, rng)
+    # what a reader returns / a hand-made dictionary: only the keys the writers need (no role, name, family, ...)
+    from basis_set_exchange import writers
+    bare = {k: copy.deepcopy(v) for k, v in b.items() if k in ('molssi_bse_schema', 'elements', 'function_types', 'names', 'description')}
+    for el in bare['elements'].values():
+        el.pop('references', None)
+    fmts = list(writers.write._writer_map)
+    for fmt in (fmts if ctx.thorough() else rng.sample(fmts, 10) + ['turbomole']):
+        call_and_check(ctx, 'writers.' + fmt + '[bare]', writers.write_formatted_basis_str, (bare, fmt), {}, 'gen:%d:bare' % seed, check_b=False)
 
 
 def run(ctx):
